@@ -9,17 +9,33 @@ package htlcswitch
 // evaluation for the Lean driver (drv_c09).
 //
 // Line formats (all integers decimal):
-//   fwd  min max base rate tld rej maxcltv bw in out ein eout h ib ir => VERDICT payload
-//   tr   min max base rate tld rej maxcltv bw out eout h            => VERDICT payload
+//   fwd  min max base rate tld rej maxcltv bw in out ein eout h ib ir FIX => RES
+//   tr   min max base rate tld rej maxcltv bw out eout h            FIX => RES
 //   efee base rate amt   => fee(uint64)
 //   calc ib ir amt       => fee(int64)
-// VERDICT is derived from the type of the returned wire failure (+ the
-// LinkError's failure detail for TemporaryChannelFailure); payload is the
-// integer carried in the failure data (-1 if none).
+// FIX = a a_scid a_fl a_dg f f_scid f_fl f_dg : what the link's two channel
+//   update sources return during this evaluation: cfg.FailAliasUpdate (a = 0:
+//   nil) and cfg.FetchLastChannelUpdate (f = 0: error). An update is printed as
+//   (short channel id, message_flags<<8|channel_flags, 48-bit digest of every
+//   other field).
+// RES = VERDICT payload code e e_scid e_fl e_dg calls
+//   Everything in RES except `calls` is read from the FINAL wire failure: the
+//   failure message of the returned *LinkError (WireMessage(), i.e. after
+//   NewLinkError / NewDetailedLinkError) is serialised with lnwire.EncodeFailure
+//   exactly as the switch does for the upstream update_fail_htlc and decoded
+//   again. VERDICT = decoded failure type (+ the LinkError's failure detail for
+//   TemporaryChannelFailure / UnknownNextPeer / ChannelDisabled), payload = the
+//   integer carried in the failure data (-1 if none), code = the BOLT-4 failure
+//   code on the wire, e.. = the channel_update embedded in the failure (e = 0:
+//   none), calls = aliasCalls + 10*fetchCalls + 100*(calls with a wrong scid).
 
 import (
 	"bufio"
+	"bytes"
+	"encoding/binary"
+	"errors"
 	"fmt"
+	"hash/fnv"
 	"math"
 	"math/big"
 	"math/rand"
@@ -27,11 +43,13 @@ import (
 	"strconv"
 	"sync/atomic"
 	"testing"
+	"time"
 
 	"github.com/btcsuite/btcd/btcutil/v2"
 	"github.com/lightningnetwork/lnd/fn/v2"
 	"github.com/lightningnetwork/lnd/graph/db/models"
 	"github.com/lightningnetwork/lnd/lnwire"
+	"github.com/lightningnetwork/lnd/tlv"
 )
 
 type c09pol struct {
@@ -51,8 +69,128 @@ type c09 struct {
 	rng   *rand.Rand
 	n     int
 	links []*channelLink
+	fix   map[*channelLink]*c09fix
 	cur   *channelLink
 	lines int
+}
+
+// c09fix is what the channel-update sources of one real link return during
+// one evaluation, and what they were asked.
+type c09fix struct {
+	alias    *lnwire.ChannelUpdate1 // cfg.FailAliasUpdate (nil: no alias update)
+	fetched  *lnwire.ChannelUpdate1 // cfg.FetchLastChannelUpdate
+	fetchErr bool
+	orig     lnwire.ShortChannelID // originalScid the caller passes
+	self     lnwire.ShortChannelID // the link's own short channel id
+
+	aliasCalls, fetchCalls, badArgs int
+
+	// when set, FailAliasUpdate is answered by the real Switch.failAliasUpdate
+	swAlias func(lnwire.ShortChannelID, bool) *lnwire.ChannelUpdate1
+}
+
+func (f *c09fix) calls() int {
+	return f.aliasCalls + 10*f.fetchCalls + 100*f.badArgs
+}
+
+// c09fp: (scid, message_flags<<8|channel_flags, 48-bit digest of the rest).
+func c09fp(u *lnwire.ChannelUpdate1) (uint64, uint64, uint64) {
+	if u == nil {
+		return 0, 0, 0
+	}
+	h := fnv.New64a()
+	var b [8]byte
+	put := func(v uint64) {
+		binary.BigEndian.PutUint64(b[:], v)
+		h.Write(b[:])
+	}
+	put(uint64(u.Timestamp))
+	put(uint64(u.MessageFlags))
+	put(uint64(u.ChannelFlags))
+	put(uint64(u.TimeLockDelta))
+	put(uint64(u.HtlcMinimumMsat))
+	put(uint64(u.BaseFee))
+	put(uint64(u.FeeRate))
+	put(uint64(u.HtlcMaximumMsat))
+	h.Write(u.ChainHash[:])
+	u.InboundFee.WhenSome(func(r tlv.RecordT[tlv.TlvType55555, lnwire.Fee]) {
+		put(1)
+		put(uint64(uint32(r.Val.BaseFee)))
+		put(uint64(uint32(r.Val.FeeRate)))
+	})
+	return u.ShortChannelID.ToUint64(),
+		uint64(u.MessageFlags)<<8 | uint64(u.ChannelFlags),
+		h.Sum64() >> 16
+}
+
+func c09fpStr(u *lnwire.ChannelUpdate1) string {
+	if u == nil {
+		return "0 0 0 0"
+	}
+	a, b, d := c09fp(u)
+	return fmt.Sprintf("1 %d %d %d", a, b, d)
+}
+
+// fixStr prints the FIX group of a line.
+func (f *c09fix) fixStr() string {
+	fe := f.fetched
+	if f.fetchErr {
+		fe = nil
+	}
+	return c09fpStr(f.alias) + " " + c09fpStr(fe)
+}
+
+// randUpd draws a channel_update: every field the failure construction copies
+// is varied independently of the link's forwarding policy (disabled bit,
+// direction bit, message flags, short channel id, timestamp, fee fields,
+// optional max_htlc and inbound fee record).
+func (c *c09) randUpd(scid lnwire.ShortChannelID, p c09pol) *lnwire.ChannelUpdate1 {
+	u := &lnwire.ChannelUpdate1{Signature: wireSig}
+	u.ShortChannelID = scid
+	if c.rng.Intn(4) == 0 {
+		u.ShortChannelID = lnwire.NewShortChanIDFromInt(
+			c.pick64(0, 77, 16_000_000<<40|5<<16|1, c.rng.Uint64()),
+		)
+	}
+	u.ChainHash[0] = byte(c.rng.Intn(3))
+	u.Timestamp = c.pick32(0, 1, c.rng.Uint32(), math.MaxUint32)
+	u.MessageFlags = lnwire.ChanUpdateMsgFlags(c.pick64(1, 1, 1, 0, 2, 3, 255))
+	// bit 0: direction, bit 1: disabled
+	u.ChannelFlags = lnwire.ChanUpdateChanFlags(c.pick64(0, 1, 2, 3, 2, 3, 0,
+		uint64(c.rng.Intn(256))))
+	u.TimeLockDelta = uint16(c.pick64(uint64(p.tld), 40, 0,
+		uint64(c.rng.Intn(65536))))
+	u.HtlcMinimumMsat = lnwire.MilliSatoshi(c.pick64(p.min, 1000, 0,
+		c.rng.Uint64()))
+	u.BaseFee = uint32(c.pick64(p.base, 1000, 0, uint64(c.rng.Uint32())))
+	u.FeeRate = uint32(c.pick64(p.rate, 1, 0, uint64(c.rng.Uint32())))
+	if u.MessageFlags.HasMaxHtlc() {
+		u.HtlcMaximumMsat = lnwire.MilliSatoshi(c.pick64(p.max, 990_000_000,
+			0, c.rng.Uint64()))
+	}
+	if c.rng.Intn(3) == 0 {
+		u.InboundFee = tlv.SomeRecordT(
+			tlv.NewRecordT[tlv.TlvType55555](lnwire.Fee{
+				BaseFee: int32(c.rng.Uint32()),
+				FeeRate: int32(c.rng.Intn(2001) - 1000),
+			}),
+		)
+	}
+	return u
+}
+
+// setFix draws the update fixtures of link l for the next evaluation.
+func (c *c09) setFix(l *channelLink, p c09pol, orig lnwire.ShortChannelID) *c09fix {
+	f := c.fix[l]
+	f.orig = orig
+	f.aliasCalls, f.fetchCalls, f.badArgs = 0, 0, 0
+	f.fetched = c.randUpd(f.self, p)
+	f.fetchErr = c.rng.Intn(40) == 0
+	f.alias = nil
+	if c.rng.Intn(5) == 0 {
+		f.alias = c.randUpd(orig, p)
+	}
+	return f
 }
 
 func (c *c09) pf(format string, a ...interface{}) {
@@ -67,53 +205,86 @@ func (c *c09) startCase(kind string) {
 
 func (c *c09) endCase() { c.pf("END") }
 
-// c09Verdict maps the returned *LinkError to the small enum + payload.
-func c09Verdict(le *LinkError) string {
+// c09Final maps the returned *LinkError to the result group of a line, read
+// from the failure as it goes on the wire (see the header).
+func c09Final(le *LinkError) string {
 	if le == nil {
-		return "accept -1"
+		return "accept -1 0 0 0 0 0"
 	}
-	switch m := le.WireMessage().(type) {
+	msg := le.WireMessage()
+	if msg == nil {
+		return "nilmsg -1 0 0 0 0 0"
+	}
+	var b bytes.Buffer
+	if err := lnwire.EncodeFailure(&b, msg, 0); err != nil {
+		return fmt.Sprintf("encodefail -1 %d 0 0 0 0", uint16(msg.Code()))
+	}
+	return c09FinalWire(b.Bytes(), le.FailureDetail)
+}
+
+// c09FinalWire decodes a serialised failure (the plaintext of the upstream
+// update_fail_htlc reason) and prints VERDICT payload code e e_scid e_fl e_dg.
+func c09FinalWire(raw []byte, detail FailureDetail) string {
+	msg, err := lnwire.DecodeFailure(bytes.NewReader(raw), 0)
+	if err != nil || msg == nil {
+		return "decodefail -1 0 0 0 0 0"
+	}
+	det := func(base string, known ...FailureDetail) string {
+		if detail == nil {
+			if base == "TemporaryChannelFailure" {
+				return base + "/none"
+			}
+			return base
+		}
+		for _, k := range known {
+			if detail == k {
+				switch k {
+				case OutgoingFailureHTLCExceedsMax:
+					return base + "/HtlcExceedsMax"
+				case OutgoingFailureInsufficientBalance:
+					return base + "/InsufficientBalance"
+				case OutgoingFailureLinkNotEligible:
+					return base + "/LinkNotEligible"
+				case OutgoingFailureCircularRoute:
+					return base + "/CircularRoute"
+				case OutgoingFailureForwardsDisabled:
+					return base + "/ForwardsDisabled"
+				}
+			}
+		}
+		return base + "/other"
+	}
+	name, payload := "", "-1"
+	u64 := func(v uint64) string { return strconv.FormatUint(v, 10) }
+	var upd *lnwire.ChannelUpdate1
+	switch m := msg.(type) {
 	case *lnwire.FailFeeInsufficient:
-		return fmt.Sprintf("FeeInsufficient %d", uint64(m.HtlcMsat))
+		name, payload, upd = "FeeInsufficient", u64(uint64(m.HtlcMsat)), &m.Update
 	case *lnwire.FailIncorrectCltvExpiry:
-		return fmt.Sprintf("IncorrectCltvExpiry %d", m.CltvExpiry)
+		name, payload, upd = "IncorrectCltvExpiry", u64(uint64(m.CltvExpiry)), &m.Update
 	case *lnwire.FailExpiryTooSoon:
-		return "ExpiryTooSoon -1"
+		name, upd = "ExpiryTooSoon", &m.Update
 	case *lnwire.FailExpiryTooFar:
-		return "ExpiryTooFar -1"
+		name = "ExpiryTooFar"
 	case *lnwire.FailAmountBelowMinimum:
-		return fmt.Sprintf("AmountBelowMinimum %d", uint64(m.HtlcMsat))
+		name, payload, upd = "AmountBelowMinimum", u64(uint64(m.HtlcMsat)), &m.Update
 	case *lnwire.FailTemporaryChannelFailure:
-		switch le.FailureDetail {
-		case OutgoingFailureHTLCExceedsMax:
-			return "TemporaryChannelFailure/HtlcExceedsMax -1"
-		case OutgoingFailureInsufficientBalance:
-			return "TemporaryChannelFailure/InsufficientBalance -1"
-		case OutgoingFailureLinkNotEligible:
-			return "TemporaryChannelFailure/LinkNotEligible -1"
-		case OutgoingFailureCircularRoute:
-			return "TemporaryChannelFailure/CircularRoute -1"
-		case nil:
-			return "TemporaryChannelFailure/none -1"
-		default:
-			return "TemporaryChannelFailure/other -1"
-		}
+		name = det("TemporaryChannelFailure", OutgoingFailureHTLCExceedsMax,
+			OutgoingFailureInsufficientBalance,
+			OutgoingFailureLinkNotEligible, OutgoingFailureCircularRoute)
+		upd = m.Update
+	case *lnwire.FailChannelDisabled:
+		name = det("ChannelDisabled", OutgoingFailureForwardsDisabled)
+		upd = &m.Update
 	case *lnwire.FailUnknownNextPeer:
-		switch le.FailureDetail {
-		case OutgoingFailureLinkNotEligible:
-			return "UnknownNextPeer/LinkNotEligible -1"
-		case nil:
-			return "UnknownNextPeer -1"
-		default:
-			return "UnknownNextPeer/other -1"
-		}
+		name = det("UnknownNextPeer", OutgoingFailureLinkNotEligible)
 	case *lnwire.FailTemporaryNodeFailure:
-		return "TemporaryNodeFailure -1"
-	case nil:
-		return "nilmsg -1"
+		name = "TemporaryNodeFailure"
 	default:
-		return fmt.Sprintf("other:%d -1", uint16(m.Code()))
+		name = fmt.Sprintf("other:%d", uint16(m.Code()))
 	}
+	return fmt.Sprintf("%s %s %d %s", name, payload, uint16(msg.Code()),
+		c09fpStr(upd))
 }
 
 // newLink builds a real channelLink (NewChannelLink) over a real test channel.
@@ -126,6 +297,7 @@ func (c *c09) newLink(aliceAmt, bobAmt, reserve btcutil.Amount) *channelLink {
 		c.t.Fatalf("createTestChannel(%v,%v,%v): %v", aliceAmt, bobAmt,
 			reserve, err)
 	}
+	fix := &c09fix{}
 	cfg := ChannelLinkConfig{
 		FwrdingPolicy: models.ForwardingPolicy{
 			MinHTLCOut: 1000, BaseFee: 1000, FeeRate: 1,
@@ -135,7 +307,19 @@ func (c *c09) newLink(aliceAmt, bobAmt, reserve btcutil.Amount) *channelLink {
 			sentMsgs: make(chan lnwire.Message, 10),
 			quit:     make(chan struct{}),
 		},
-		FetchLastChannelUpdate:  mockGetChanUpdateMessage,
+		FetchLastChannelUpdate: func(scid lnwire.ShortChannelID) (
+			*lnwire.ChannelUpdate1, error) {
+
+			fix.fetchCalls++
+			if scid != fix.self {
+				fix.badArgs++
+			}
+			if fix.fetchErr || fix.fetched == nil {
+				return nil, errors.New("c09: no channel update")
+			}
+			cp := *fix.fetched
+			return &cp, nil
+		},
 		OutgoingCltvRejectDelta: 3,
 		MaxOutgoingCltvExpiry:   DefaultMaxOutgoingCltvExpiry,
 		HtlcNotifier:            &mockHTLCNotifier{},
@@ -145,12 +329,25 @@ func (c *c09) newLink(aliceAmt, bobAmt, reserve btcutil.Amount) *channelLink {
 	if !ok {
 		c.t.Fatalf("NewChannelLink did not return *channelLink")
 	}
+	fix.self = link.ShortChanID()
 	link.attachFailAliasUpdate(
-		func(lnwire.ShortChannelID, bool) *lnwire.ChannelUpdate1 {
-			return nil
+		func(scid lnwire.ShortChannelID, incoming bool) *lnwire.ChannelUpdate1 {
+			fix.aliasCalls++
+			if scid != fix.orig || incoming {
+				fix.badArgs++
+			}
+			if fix.swAlias != nil {
+				return fix.swAlias(scid, incoming)
+			}
+			if fix.alias == nil {
+				return nil
+			}
+			cp := *fix.alias
+			return &cp
 		},
 	)
 	c.links = append(c.links, link)
+	c.fix[link] = fix
 	return link
 }
 
@@ -188,14 +385,23 @@ func (c *c09) apply(l *channelLink, p c09pol, ib, ir int32) {
 	l.Unlock()
 }
 
+// origScid: the short channel id the sender put in the onion (the link's own,
+// an alias, anything).
+func (c *c09) origScid(l *channelLink) lnwire.ShortChannelID {
+	return lnwire.NewShortChanIDFromInt(c.pick64(77,
+		l.ShortChanID().ToUint64(), 16_000_000<<40|7<<16|2, c.rng.Uint64()))
+}
+
 func (c *c09) fwd(l *channelLink, p c09pol, x c09in) {
 	c.apply(l, p, x.ib, x.ir)
+	orig := c.origScid(l)
+	fix := c.setFix(l, p, orig)
 	bw := uint64(l.Bandwidth())
-	res := "panic -1"
+	res := "panic -1 0 0 0 0 0"
 	func() {
 		defer func() {
 			if r := recover(); r != nil {
-				res = "panic -1"
+				res = "panic -1 0 0 0 0 0"
 			}
 		}()
 		var hash [32]byte
@@ -203,34 +409,37 @@ func (c *c09) fwd(l *channelLink, p c09pol, x c09in) {
 			hash, lnwire.MilliSatoshi(x.in),
 			lnwire.MilliSatoshi(x.out), x.ein, x.eout,
 			models.InboundFee{Base: x.ib, Rate: x.ir}, x.h,
-			lnwire.NewShortChanIDFromInt(77), nil,
+			orig, nil,
 		)
-		res = c09Verdict(le)
+		res = c09Final(le)
 	}()
-	c.pf("fwd %d %d %d %d %d %d %d %d %d %d %d %d %d %d %d => %s",
+	c.pf("fwd %d %d %d %d %d %d %d %d %d %d %d %d %d %d %d %s => %s %d",
 		p.min, p.max, p.base, p.rate, p.tld, p.rej, p.maxcltv, bw,
-		x.in, x.out, x.ein, x.eout, x.h, x.ib, x.ir, res)
+		x.in, x.out, x.ein, x.eout, x.h, x.ib, x.ir, fix.fixStr(), res,
+		fix.calls())
 }
 
 func (c *c09) transit(l *channelLink, p c09pol, x c09in) {
 	c.apply(l, p, x.ib, x.ir)
+	// CheckHtlcTransit passes hop.Source (the zero id) as original scid
+	fix := c.setFix(l, p, lnwire.ShortChannelID{})
 	bw := uint64(l.Bandwidth())
-	res := "panic -1"
+	res := "panic -1 0 0 0 0 0"
 	func() {
 		defer func() {
 			if r := recover(); r != nil {
-				res = "panic -1"
+				res = "panic -1 0 0 0 0 0"
 			}
 		}()
 		var hash [32]byte
 		le := l.CheckHtlcTransit(
 			hash, lnwire.MilliSatoshi(x.out), x.eout, x.h, nil,
 		)
-		res = c09Verdict(le)
+		res = c09Final(le)
 	}()
-	c.pf("tr %d %d %d %d %d %d %d %d %d %d %d => %s",
+	c.pf("tr %d %d %d %d %d %d %d %d %d %d %d %s => %s %d",
 		p.min, p.max, p.base, p.rate, p.tld, p.rej, p.maxcltv, bw,
-		x.out, x.eout, x.h, res)
+		x.out, x.eout, x.h, fix.fixStr(), res, fix.calls())
 }
 
 func (c *c09) efee(base, rate, amt uint64) {
@@ -802,7 +1011,8 @@ func TestVerifC09(t *testing.T) {
 	}
 	defer f.Close()
 	c := &c09{t: t, w: bufio.NewWriterSize(f, 1<<20),
-		rng: rand.New(rand.NewSource(seed*7919 + 9))}
+		rng: rand.New(rand.NewSource(seed*7919 + 9)),
+		fix: make(map[*channelLink]*c09fix)}
 	defer c.w.Flush()
 
 	// constants read from the code (behaviourally where unexported)
@@ -858,14 +1068,25 @@ func TestVerifC09(t *testing.T) {
 
 // ---- level 2: Switch.handlePacketAdd / getLocalLink over parallel links ------
 //
-// Line formats:
-//   sw  mode req h in out ein eout ib ir n {elig min max base rate tld rej maxcltv bw}*n => chosen VERDICT payload
-//   swl req h out eout n {elig min max base rate tld rej maxcltv bw}*n                    => chosen VERDICT payload
-// mode 0 = channel-addressed forward (outgoingHop Left(scid), req = index of the
-// requested link among the peer's n links), mode 1 = node-addressed forward
-// (outgoingHop Right(pubkey), req = -1). n = 0: the requested scid is unknown to
-// the switch. chosen = index of the link whose handleSwitchPacket received the
-// add (sw) / that getLocalLink returned (swl), -1 if none.
+// Line formats (LINK = elig unadv scid min max base rate tld rej maxcltv bw f f_scid f_fl f_dg):
+//   sw  mode req via rjh h in out ein eout ib ir orig ia bi n LINK*n => chosen RES
+//   swl req via h out eout orig bi n LINK*n                         => chosen RES
+// mode 0 = channel-addressed forward (outgoingHop Left(id)), mode 1 =
+// node-addressed forward (outgoingHop Right(pubkey), req = -1). The n links are
+// ALL links the switch has to the next peer; req = index of the link that owns
+// the id the sender used (by construction of the fixture), via = how the
+// sender named it: 0 its ShortChanID as registered in the switch, 1 another
+// alias of it, 2 the confirmed scid of a zero-conf channel, 3 an id nobody
+// owns (n = 0, req = -1). orig = that id as an integer, ia = cfg.IsAlias(orig),
+// bi = s.baseIndex[orig] (-1: no entry) as read from the switch. rjh =
+// cfg.RejectHTLC. Per link: unadv = IsUnadvertised, scid = ShortChanID, f.. =
+// the channel_update the fixture hands out for this channel (f = 0: lookup
+// error). chosen = index of the link whose handleSwitchPacket received the add
+// (sw) / that getLocalLink returned (swl), -1 if none.
+// RES = VERDICT payload code e e_scid e_fl e_dg as on link level; for `sw` it is
+// decoded from the reason of the update_fail_htlc packet that the switch mailed
+// to the incoming link (mock obfuscator = plaintext), i.e. the failure the
+// upstream peer receives.
 
 // c09swLink is a link registered in the real Switch: the switch plumbing
 // (ids, peer, mailbox, dust accessors) comes from the package's mockChannelLink,
@@ -902,6 +1123,23 @@ func (l *c09swLink) handleSwitchPacket(pkt *htlcPacket) error {
 	return nil
 }
 
+// owns: the ids under which the sender may name this channel.
+func (l *c09swLink) ids() (own lnwire.ShortChannelID,
+	aliases []lnwire.ShortChannelID, confirmed *lnwire.ShortChannelID) {
+
+	own = l.shortChanID
+	for _, a := range l.aliases {
+		if a != own {
+			aliases = append(aliases, a)
+		}
+	}
+	if l.zeroConf && l.confirmedZC && l.realScid != own {
+		r := l.realScid
+		confirmed = &r
+	}
+	return
+}
+
 type c09peer struct {
 	*mockPeer
 	pub [33]byte
@@ -927,6 +1165,11 @@ func (c *c09) newPeer(tag byte) *c09peer {
 	return p
 }
 
+func c09Alias(k uint32) lnwire.ShortChannelID {
+	return lnwire.ShortChannelID{BlockHeight: 16_000_000 + k, TxIndex: k,
+		TxPosition: uint16(k)}
+}
+
 func (c *c09) setupSwitch() *c09sw {
 	s, err := initSwitchWithTempDB(c.t, 840_000)
 	if err != nil {
@@ -938,49 +1181,105 @@ func (c *c09) setupSwitch() *c09sw {
 	c.t.Cleanup(func() { _ = s.Stop() })
 	sw := &c09sw{s: s}
 
-	mk := func(id byte, scid uint64, peer *c09peer) *mockChannelLink {
+	mk := func(id byte, scid, realScid lnwire.ShortChannelID, peer *c09peer,
+		unadv, zeroConf, option bool) *mockChannelLink {
+
 		var cid lnwire.ChannelID
 		cid[0] = id
 		return newMockChannelLink(
-			s, cid, lnwire.NewShortChanIDFromInt(scid),
-			lnwire.ShortChannelID{}, peer, true, false, false, false,
+			s, cid, scid, realScid, peer, true, unadv, zeroConf, option,
 		)
 	}
-	sw.in = mk(1, 1001, c.newPeer(1))
+	sw.in = mk(1, lnwire.NewShortChanIDFromInt(1001),
+		lnwire.ShortChannelID{}, c.newPeer(1), false, false, false)
 	if err := s.AddLink(sw.in); err != nil {
 		c.t.Fatalf("AddLink(in): %v", err)
 	}
-	// failure packets are mailed back to the incoming link: drain them
-	go func() {
-		for {
-			select {
-			case <-sw.in.packets:
-			case <-s.quit:
-				return
-			}
-		}
-	}()
 
-	// peers with 3, 2 and 1 parallel channels, over real links of different
-	// channel sizes (hence different spendable bandwidth)
-	groups := [][]int{{2, 4, 5}, {3, 6}, {7}}
+	// peers with 3, 2 and 1 parallel plain channels and one peer whose 5
+	// channels use scid aliases (option-scid-alias public / unadvertised,
+	// zero-conf unconfirmed / confirmed public / confirmed unadvertised), all
+	// over real links of different channel sizes.
+	type spec struct {
+		real                   int
+		unadv, zeroConf, option bool
+		confirmed              bool
+		nAlias                 int
+	}
+	groups := [][]spec{
+		{{real: 2}, {real: 4}, {real: 5}},
+		{{real: 3}, {real: 6}},
+		{{real: 7}},
+		{
+			{real: 8, option: true, nAlias: 2},
+			{real: 9, option: true, unadv: true, nAlias: 1},
+			{real: 10, zeroConf: true, unadv: true, nAlias: 1},
+			{real: 11, zeroConf: true, confirmed: true, nAlias: 1},
+			{real: 1, zeroConf: true, confirmed: true, unadv: true},
+		},
+	}
 	id := byte(10)
-	for g, idxs := range groups {
+	alias := uint32(100)
+	for g, specs := range groups {
 		peer := c.newPeer(byte(10 + g))
 		var ls []*c09swLink
-		for _, k := range idxs {
-			l := &c09swLink{
-				mockChannelLink: mk(id, 2000+uint64(id), peer),
-				real:            c.links[k], elig: true,
+		for _, sp := range specs {
+			scid := lnwire.NewShortChanIDFromInt(2000 + uint64(id))
+			realScid := lnwire.ShortChannelID{}
+			if sp.zeroConf {
+				// a zero-conf link is registered under an alias
+				realScid = lnwire.ShortChannelID{}
+				if sp.confirmed {
+					realScid = scid
+				}
+				scid = c09Alias(alias)
+				alias++
 			}
+			m := mk(id, scid, realScid, peer, sp.unadv, sp.zeroConf,
+				sp.option)
+			for k := 0; k < sp.nAlias; k++ {
+				m.addAlias(c09Alias(alias))
+				alias++
+			}
+			l := &c09swLink{mockChannelLink: m, real: c.links[sp.real],
+				elig: true}
 			id++
 			if err := s.AddLink(l); err != nil {
 				c.t.Fatalf("AddLink: %v", err)
 			}
+			// production wiring: the link's FailAliasUpdate is the switch's
+			c.fix[l.real].swAlias = s.failAliasUpdate
 			ls = append(ls, l)
 		}
 		sw.peers = append(sw.peers, ls)
 		sw.keys = append(sw.keys, peer.pub)
+	}
+
+	// the switch's own source of channel updates (used by failAliasUpdate):
+	// the update of the channel that owns the id, from the same fixture
+	s.cfg.FetchLastChannelUpdate = func(scid lnwire.ShortChannelID) (
+		*lnwire.ChannelUpdate1, error) {
+
+		for _, ls := range sw.peers {
+			for _, l := range ls {
+				own, aliases, conf := l.ids()
+				hit := scid == own || (conf != nil && scid == *conf)
+				for _, a := range aliases {
+					hit = hit || scid == a
+				}
+				if !hit {
+					continue
+				}
+				f := c.fix[l.real]
+				f.fetchCalls++
+				if f.fetchErr || f.fetched == nil {
+					return nil, errors.New("c09: no channel update")
+				}
+				cp := *f.fetched
+				return &cp, nil
+			}
+		}
+		return nil, errors.New("c09: unknown channel")
 	}
 	return sw
 }
@@ -1033,7 +1332,7 @@ func (c *c09) swPolicies(p0 c09pol, x c09in, n int) []c09pol {
 }
 
 func (c *c09) swEval(sw *c09sw, local bool) {
-	g := c.pick64(0, 0, 0, 0, 0, 0, 1, 1, 1, 2)
+	g := c.pick64(0, 0, 0, 0, 1, 1, 2, 3, 3, 3)
 	links := sw.peers[g]
 	n := len(links)
 
@@ -1067,6 +1366,30 @@ func (c *c09) swEval(sw *c09sw, local bool) {
 	x.ein = x.eout + p0.tld + uint32(c.rng.Intn(4))
 	ps := c.swPolicies(p0, x, n)
 
+	// how the sender names the channel
+	mode, req, via := 0, c.rng.Intn(n), 0
+	own, aliases, conf := links[req].ids()
+	orig := own
+	switch k := c.rng.Intn(3); {
+	case k == 1 && len(aliases) > 0:
+		via, orig = 1, aliases[c.rng.Intn(len(aliases))]
+	case k == 2 && conf != nil:
+		via, orig = 2, *conf
+	}
+	unknown := false
+	switch r := c.rng.Intn(40); {
+	case r == 0:
+		// an id the switch does not know (plain or alias range)
+		unknown, via = true, 3
+		orig = lnwire.NewShortChanIDFromInt(999_999)
+		if c.rng.Intn(2) == 0 {
+			orig = c09Alias(9_999)
+		}
+	case r < 10 && !local:
+		mode, req, via = 1, -1, 0
+		orig = lnwire.ShortChannelID{}
+	}
+
 	var hash [32]byte
 	c.rng.Read(hash[:])
 	atomic.StoreUint32(&sw.s.bestHeight, x.h)
@@ -1075,21 +1398,32 @@ func (c *c09) swEval(sw *c09sw, local bool) {
 		l.elig = c.rng.Intn(7) != 0
 		l.got = nil
 		c.apply(l.real, ps[k], ib, ir)
-		e := 0
+		f := c.setFix(l.real, ps[k], orig)
+		if local {
+			f.orig = lnwire.ShortChannelID{}
+		}
+		f.alias = nil
+		e, u := 0, 0
 		if l.elig {
 			e = 1
 		}
-		desc += fmt.Sprintf(" %d %d %d %d %d %d %d %d %d", e, ps[k].min,
-			ps[k].max, ps[k].base, ps[k].rate, ps[k].tld, ps[k].rej,
-			ps[k].maxcltv, uint64(l.real.Bandwidth()))
+		if l.unadvertised {
+			u = 1
+		}
+		fe := f.fetched
+		if f.fetchErr {
+			fe = nil
+		}
+		desc += fmt.Sprintf(" %d %d %d %d %d %d %d %d %d %d %d %s", e, u,
+			l.shortChanID.ToUint64(), ps[k].min, ps[k].max, ps[k].base,
+			ps[k].rate, ps[k].tld, ps[k].rej, ps[k].maxcltv,
+			uint64(l.real.Bandwidth()), c09fpStr(fe))
 	}
 
-	mode, req := 0, c.rng.Intn(n)
-	unknown := false
 	pkt := &htlcPacket{
 		incomingChanID:  sw.in.ShortChanID(),
 		incomingHTLCID:  sw.htlc,
-		outgoingChanID:  links[req].ShortChanID(),
+		outgoingChanID:  orig,
 		incomingAmount:  lnwire.MilliSatoshi(x.in),
 		amount:          lnwire.MilliSatoshi(x.out),
 		incomingTimeout: x.ein,
@@ -1103,19 +1437,11 @@ func (c *c09) swEval(sw *c09sw, local bool) {
 		Expiry: x.eout,
 	}
 	pkt.htlc = htlc
-	switch r := c.rng.Intn(40); {
-	case r == 0:
-		// a channel id the switch does not know
-		unknown = true
-		pkt.outgoingChanID = lnwire.NewShortChanIDFromInt(999_999)
-	case r < 10 && !local:
-		mode, req = 1, -1
-		pkt.outgoingChanID = lnwire.ShortChannelID{}
+	if mode == 1 {
 		pkt.outgoingHop = fn.NewRight[lnwire.ShortChannelID, [33]byte](
 			sw.keys[g],
 		)
-	}
-	if mode == 0 {
+	} else {
 		pkt.outgoingHop = fn.NewLeft[lnwire.ShortChannelID, [33]byte](
 			pkt.outgoingChanID,
 		)
@@ -1123,30 +1449,62 @@ func (c *c09) swEval(sw *c09sw, local bool) {
 	if unknown {
 		n, req, desc = 0, -1, ""
 	}
+	// the switch's view of the id, read before the call
+	ia, bi := 0, "-1"
+	if sw.s.cfg.IsAlias(orig) {
+		ia = 1
+	}
+	sw.s.indexMtx.RLock()
+	if b, ok := sw.s.baseIndex[orig]; ok {
+		bi = strconv.FormatUint(b.ToUint64(), 10)
+	}
+	sw.s.indexMtx.RUnlock()
+	rjh := 0
+	if !local && c.rng.Intn(30) == 0 {
+		rjh = 1
+	}
 
-	res := "panic -1"
+	res := "panic -1 0 0 0 0 0"
 	var ret ChannelLink
 	func() {
 		defer func() {
 			if r := recover(); r != nil {
-				res = "panic -1"
+				res = "panic -1 0 0 0 0 0"
 			}
 		}()
 		if local {
 			pkt.incomingChanID = lnwire.ShortChannelID{}
 			l, le := sw.s.getLocalLink(pkt, htlc)
 			ret = l
-			res = c09Verdict(le)
+			res = c09Final(le)
 			return
 		}
+		sw.s.cfg.RejectHTLC = rjh == 1
 		err := sw.s.handlePacketAdd(pkt, htlc)
+		sw.s.cfg.RejectHTLC = false
 		switch e := err.(type) {
 		case nil:
-			res = "accept -1"
+			res = "accept -1 0 0 0 0 0"
 		case *LinkError:
-			res = c09Verdict(e)
+			// what the upstream peer gets: the update_fail_htlc mailed
+			// to the incoming link
+			select {
+			case fp := <-sw.in.packets:
+				fail, ok := fp.htlc.(*lnwire.UpdateFailHTLC)
+				if !ok || len(fail.Reason) < len(fakeHmac) ||
+					fp.incomingHTLCID != pkt.incomingHTLCID {
+
+					res = "badfailpkt -1 0 0 0 0 0"
+					break
+				}
+				res = c09FinalWire(fail.Reason[len(fakeHmac):],
+					e.FailureDetail)
+				sw.in.mailBox.AckPacket(fp.inKey())
+			case <-time.After(20 * time.Second):
+				res = "nofailpkt -1 0 0 0 0 0"
+			}
 		default:
-			res = "error -1"
+			res = "error -1 0 0 0 0 0"
 		}
 	}()
 	chosen := -1
@@ -1160,12 +1518,13 @@ func (c *c09) swEval(sw *c09sw, local bool) {
 		}
 	}
 	if local {
-		c.pf("swl %d %d %d %d %d%s => %d %s", req, x.h, x.out, x.eout, n,
-			desc, chosen, res)
+		c.pf("swl %d %d %d %d %d %d %s %d%s => %d %s", req, via, x.h, x.out,
+			x.eout, orig.ToUint64(), bi, n, desc, chosen, res)
 		return
 	}
-	c.pf("sw %d %d %d %d %d %d %d %d %d %d%s => %d %s", mode, req, x.h,
-		x.in, x.out, x.ein, x.eout, ib, ir, n, desc, chosen, res)
+	c.pf("sw %d %d %d %d %d %d %d %d %d %d %d %d %d %s %d%s => %d %s", mode,
+		req, via, rjh, x.h, x.in, x.out, x.ein, x.eout, ib, ir,
+		orig.ToUint64(), ia, bi, n, desc, chosen, res)
 }
 
 func (c *c09) switchLevel(nEvals int) {
@@ -1187,4 +1546,8 @@ func (c *c09) switchLevel(nEvals int) {
 		c.swEval(sw, k%8 == 7)
 	}
 	c.endCase()
+	// outside the switch the links use the plain fixtures again
+	for _, f := range c.fix {
+		f.swAlias = nil
+	}
 }
